@@ -15,6 +15,11 @@ Families
     gossip    bounded delays + one scripted peer that injects well-formed stale / fresh
               suspect / dead / alive updates: DEAD -> ALIVE without a higher incarnation refutes
     churn     lossy / slow / partitioned network (no accuracy claim): DEAD -> ALIVE refutes
+    tardy     loss-free, one-way delays up to 30 % of the probe interval (round trips straddle the 50 % ack
+              deadline, stay below 60 %), suspicion timeout >= 25 %: any DEAD refutes
+    join      bounded delays; nodes that call start() before they know anybody and are introduced later with
+              add_member(), or whose only known member is DEAD for some ticks before the introduction; then one
+              member is stopped: same detection / false-death oracles as crash
     phi       PhiAccrualDetector alone: phi(t2) < phi(t1), t1 < t2, no heartbeat in between
 """
 
@@ -49,6 +54,11 @@ RULE = (
     "live view has left ALIVE, otherwise it is followed to t+3B+3 so that the mechanism key can tell 'late' from 'not at "
     "all' (both are violations). gossip: a "
     "scripted extra peer sends well-formed pings whose update lists carry suspect/dead/alive at incarnations 0-4. "
+    "tardy: no loss, one-way delays up to 30 % of the probe interval with most round trips beyond the 50 % ack deadline "
+    "(late acks counted), suspicion timeout 0.25-5.5 intervals. join: 2-8 nodes, some start() with an empty member list "
+    "and are introduced symmetrically 1-7 intervals later, or know only a member that crashes and is declared DEAD "
+    "before the introduction (probe rounds with nobody to probe are counted and required), then a stop as in crash; a "
+    "harness ticker delivers one inert event per interval after every stop so that views are sampled even in a silent cluster. "
     "churn: loss, delays up to several probe intervals, partitions that heal, pause windows. phi: detector alone, "
     "heartbeat histories (regular, bursty, single, zero-variance, exponential) with grids (fine, geometric to 1e12 s, "
     "consecutive floats) between consecutive heartbeats and after the last. State of every node for every peer "
@@ -62,11 +72,13 @@ ASSUMPTIONS = [
     "'bounded number of probe rounds' is restated as B = (3N+10) probe intervals after the stop, fixed before measuring; any ALIVE report about the stopped member sampled later than stop + B is a violation",
     "documented parameter ranges taken as: probe_interval 0.1-10 s, suspicion_timeout 0.25-12 probe intervals, indirect_probe_count 0-5, phi_threshold 1-12 (defaults 1.0 / 5.0 / 3 / 8.0; tests use 0.5 / 3.0 / 4.0)",
     "SUSPECT counts as 'no longer reported ALIVE' (the statement asks only that ALIVE reports stop)",
+    "tardy family: 'well below the probe interval' is stretched to one-way delays <= 30 % (round trip <= 60 % of the interval, below 50 % + the smallest suspicion timeout of 25 %): every ack still arrives before the suspicion timer it has to cancel; HEAD declared nobody DEAD in 1800 such runs",
+    "join family: late members are introduced symmetrically (both sides call add_member at the same instant); a node that pings a peer which does not know it yet cannot be acked and is outside the healthy-network claim",
     "the incarnation of a DEAD report is bounded below by the incarnations of the updates the observer visibly applied; a DEAD -> ALIVE transition is accepted when any incarnation for that member delivered to the observer since the DEAD report is higher than that lower bound",
     "PhiAccrualDetector is built with min_std > 0 (its documented purpose is to prevent a division by zero) and heartbeats are fed in non-decreasing time order",
     "global `random` state is owned by the case (seeded with case['pyseed']); the library shuffles probe orders with it",
 ]
-MUST_OBSERVE = ["state_samples", "late_samples_after_bound", "phi_pairs_checked", "dead_reports_tracked"]
+MUST_OBSERVE = ["state_samples", "late_samples_after_bound", "phi_pairs_checked", "dead_reports_tracked", "idle_probe_ticks", "late_acks_seen"]
 
 MSG_TYPES = ("MembershipPing", "MembershipAck", "MembershipIndirectAck")
 
@@ -249,6 +261,92 @@ def gen_churn(rng: random.Random, tier: str) -> dict:
     return case
 
 
+TARDY_FRAC = 0.30  # "tardy" family: one-way delays up to 30 % of the probe interval (round trip <= 60 %)
+
+
+def _tardy_script(rng: random.Random, pi: float) -> dict:
+    """Loss-free, every delay <= 30 % of the probe interval, round trips straddling the 50 % ack deadline."""
+    hi = rng.choice([0.27, 0.27, 0.30, 0.30, 0.26]) * pi
+    fam = rng.choice(["uniform", "uniform", "fixed", "bimodal"])
+    spec: dict = {"seed": rng.randrange(1 << 30), "loss": 0.0, "rules": [], "keep_log": True}
+    if fam == "uniform":
+        spec.update(family="uniform", base=[rng.choice([0.15, 0.2, 0.24]) * pi, hi])
+    elif fam == "fixed":
+        spec.update(family="fixed", base=[hi, hi])
+    else:
+        spec.update(family="bimodal", base=[0.0, 0.05 * pi], slow=[0.25 * pi, hi], p_slow=rng.choice([0.3, 0.5, 0.7]))
+    return spec
+
+
+def gen_tardy(rng: random.Random, tier: str) -> dict:
+    case = _params(rng)
+    n, pi = case["n"], case["probe_interval"]
+    # suspicion timeouts >= 0.25 interval (the range of the other families), also just past a whole number of
+    # intervals so that an old timer can expire inside a later late-ack window of the same observer
+    k = rng.choice([0, 0, 1, 1, 2, 2, 3, 5])
+    f = rng.choice([0.0, 0.0, 0.02, 0.05, 0.25, 0.5])
+    case["suspicion_timeout"] = round(pi * max(0.25, k + f), 6)
+    if rng.random() < 0.3:
+        case["phi_threshold"] = rng.choice([1.0, 2.0, 3.0])
+    case["offsets"] = _offsets(rng, n, pi)
+    case["script"] = _tardy_script(rng, pi)
+    case["bound_frac"] = TARDY_FRAC
+    case["rounds"] = rng.choice([60, 60, 120])
+    case["stop"] = None
+    return case
+
+
+def gen_join(rng: random.Random, tier: str) -> dict:
+    """Memberships in which some node has nobody to probe at some tick, then a stop to be detected."""
+    case = _params(rng)
+    n = case["n"] = rng.choice([2, 2, 2, 3, 3, 4, 5, 6, 8])
+    pi = case["probe_interval"]
+    case["offsets"] = offs = _offsets(rng, n, pi)
+    case["script"] = _bounded_script(rng, _names(n), pi)
+    variant = rng.choice(["late-join", "late-join", "all-dead-then-join"]) if n >= 3 else "late-join"
+    initial: list[list[int]] = [[] for _ in range(n)]
+    joins = []
+    decoy = None
+    if variant == "late-join":
+        # joiners call start() knowing nobody (idle ticks) and are introduced to the cluster later, symmetrically
+        joiners = rng.sample(range(n), k=rng.randint(1, max(1, n // 2)))
+        inside = [i for i in range(n) if i not in joiners]
+        for a in inside:
+            initial[a] = [b for b in inside if b != a]
+        times = sorted((round(offs[j] + (rng.randint(1, 6) + rng.choice([0.05, 0.3, 0.5, 0.95])) * pi, 6), j) for j in joiners)
+        for t, j in times:
+            joins.append({"at": t, "pairs": [[j, m] for m in inside]})
+            inside.append(j)
+        last_join = times[-1][0]
+        candidates = list(range(n))
+    else:
+        # node 0 knows only the decoy (node 1); the decoy crashes before it ever answers and node 0 declares it
+        # DEAD (suspicion timeout below half an interval, so the re-probe does not cancel it): for some ticks
+        # everybody node 0 knows is DEAD; then node 0 and the rest of the cluster are introduced
+        initial[0], initial[1] = [1], [0]
+        rest = list(range(2, n))
+        for a in rest:
+            initial[a] = [b for b in rest if b != a]
+        case["suspicion_timeout"] = round(0.25 * pi, 6)
+        decoy = {"member": 1, "at": round(rng.choice([0.3, 0.9, 1.2]) * pi, 6)}
+        last_join = round(offs[0] + (rng.randint(5, 9) + rng.choice([0.05, 0.5, 0.95])) * pi, 6)
+        joins.append({"at": last_join, "pairs": [[0, m] for m in rest]})
+        candidates = [0] + rest
+    case["membership"] = {"variant": variant, "initial": initial, "joins": joins}
+    case["decoy"] = decoy
+    victim = rng.choice(candidates)
+    k = rng.randint(1, 2 * n + 6)
+    frac = rng.choice([0.0, 0.05, 0.5, 0.95, round(rng.random(), 6)])
+    case["stop"] = {
+        "mode": rng.choice(["crash", "crash", "isolate"]),
+        "member": victim,
+        "at": round(last_join + (k + frac) * pi, 9),
+        "phase": "after-join",
+    }
+    case["rounds"] = None
+    return case
+
+
 # --------------------------------------------------------------------------
 # cluster harness
 
@@ -319,11 +417,12 @@ def _build(case: dict):
 
         peer = ScriptedPeer("g", net, {nd.name: nd for nd in nodes})
         everyone.append(peer)
-    for a in everyone:
-        for b in everyone:
+    membership = case.get("membership")
+    for ai, a in enumerate(everyone):
+        for bi, b in enumerate(everyone):
             if a is b:
                 continue
-            if a in nodes:
+            if a in nodes and (membership is None or bi in membership["initial"][ai]):
                 a.add_member(b)
             net.add_link(
                 a,
@@ -351,8 +450,17 @@ class _Monitor:
         self.stopped = stopped
         self.stop_ns = stop_ns
         m = len(self.member_names)
-        A = MemberState.ALIVE
-        self.cur = [[A] * m for _ in range(self.n)]
+        # a member the observer has not been told about yet is None (no view), never ALIVE
+        self.cur = [[nd.get_member_state(x) if x != nd.name else None for x in self.member_names] for nd in nodes]
+        self.excluded = {stopped} if stopped is not None else set()  # stopped members: no accuracy claim about them
+        if case.get("decoy"):
+            self.excluded.add(case["decoy"]["member"])
+        self.bound_frac = case.get("bound_frac", BOUND_FRAC)
+        self.prev_probes = [nd.stats.probes_sent for nd in nodes]
+        self.ping_sent_ns: dict = {}  # (observer, member) -> send time of the outstanding direct ping
+        self.late_acks = 0  # acks delivered later than the 50 % ack deadline of their direct ping
+        self.half_interval_ns = int(case["probe_interval"] * 0.5e9)
+        self.idle_ticks = [0] * self.n
         self.inc_lb = [[0] * m for _ in range(self.n)]  # lower bound of the observer's incarnation for the member
         self.dead_inc = [[None] * m for _ in range(self.n)]  # set while a DEAD report has not been legitimately revived
         self.since_dead = [[None] * m for _ in range(self.n)]  # incarnations delivered since the DEAD report
@@ -422,6 +530,21 @@ class _Monitor:
                 src = md.get("source")
                 if src in self.names:
                     self.probes_after_stop[self.names.index(src)] += 1
+        if ev.target is self.net and ev.event_type == "MembershipPing" and type(ev).__name__ == "Event":
+            md = ev.context.get("metadata", {})
+            if "indirect_for" not in md:
+                self.ping_sent_ns[(md.get("source"), md.get("destination"))] = t
+        elif wire is not None and ev.event_type == "MembershipAck":
+            t0 = self.ping_sent_ns.pop((self.names[wire[0]], wire[1]), None)
+            if t0 is not None and t - t0 > self.half_interval_ns:
+                self.late_acks += 1
+        if ev.event_type == "MembershipProbeTick" and not crashed_target:
+            ti = self.idx_of_target.get(id(ev.target))
+            if ti is not None:
+                sent = ev.target.stats.probes_sent
+                if sent == self.prev_probes[ti]:
+                    self.idle_ticks[ti] += 1  # a probe round with nobody to probe
+                self.prev_probes[ti] = sent
         late = self.bound_ns is not None and t > self.bound_ns
         for yi, y in enumerate(self.nodes):
             row = self.cur[yi]
@@ -430,8 +553,9 @@ class _Monitor:
                     continue
                 s = y.get_member_state(xname)
                 if s is not row[xi]:
-                    self._transition(yi, xi, row[xi], s, t, ev, wire)
-                    row[xi] = s
+                    if s is not None and row[xi] is not None:
+                        self._transition(yi, xi, row[xi], s, t, ev, wire)
+                    row[xi] = s  # None -> ALIVE is an introduction (add_member), not a report change
             if self.stopped is not None and yi != self.stopped:
                 if row[self.stopped] is MS.ALIVE:
                     self.last_alive_ns[yi] = t
@@ -443,7 +567,7 @@ class _Monitor:
             if t > self.settle_ns and self.control is not None:
                 A = MS.ALIVE
                 xs = self.stopped
-                if all(self.cur[yi][xs] is not A for yi in range(self.n) if yi != xs):
+                if all(self.cur[yi][xs] is not A for yi in range(self.n) if yi not in self.excluded):
                     self.control.pause()  # every live view has left ALIVE and stayed so for 3 intervals past B
                     self.control = None
 
@@ -512,12 +636,14 @@ class _Monitor:
         if xi >= self.n:
             return  # the scripted peer is not a library member
         st = self.case.get("stop")
+        if yi in self.excluded or xi in self.excluded:
+            return  # views of / by a stopped member are the other clause
         if st is not None:
-            if st["member"] in (yi, xi):
-                return  # views of / by the stopped member are the other clause
             ctx = "one-other-member-stopped"
         else:
             ctx = "nobody-stopped"
+        if self.bound_frac != BOUND_FRAC:
+            ctx += f"/one-way-delays-up-to-{round(self.bound_frac * 100)}pct-of-the-probe-interval"
         cause = "gossiped-dead-update" if by_gossip else ("local-suspicion-timeout" if ev.event_type == "MembershipSuspicionTimeout" else f"on-{ev.event_type}")
         shape = f"{cause}/{ctx}"
         key = ("false-death", shape)
@@ -530,7 +656,7 @@ class _Monitor:
             shape,
             detail=(
                 f"{self.names[yi]} marks live member {self.names[xi]} DEAD at t={t / 1e9:.6f}s "
-                f"(probe interval {self.case['probe_interval']}s, every delay <= {BOUND_FRAC:.0%} of it) on {ev.event_type}"
+                f"(probe interval {self.case['probe_interval']}s, every delay <= {self.bound_frac:.0%} of it, no loss) on {ev.event_type}"
             ),
             witness={"observer": self.names[yi], "member": self.names[xi], "t_s": t / 1e9, "event_type": ev.event_type},
         )
@@ -558,14 +684,32 @@ def _run_cluster(case: dict, *, check_false_death: bool, check_detection: bool) 
         end_s = case["rounds"] * pi
 
     fs = None
-    if (stop is not None and stop["mode"] == "crash") or case.get("pauses"):
+    decoy = case.get("decoy")
+    if (stop is not None and stop["mode"] == "crash") or case.get("pauses") or decoy:
         fs = FaultSchedule()
+        if decoy:
+            fs.add(CrashNode(nodes[decoy["member"]].name, at=decoy["at"]))
         if stop is not None and stop["mode"] == "crash":
             fs.add(CrashNode(nodes[stop["member"]].name, at=stop["at"]))
         for p in case.get("pauses", []) or []:
             fs.add(PauseNode(nodes[p["member"]].name, start=p["start"], end=p["end"]))
     entities = [net, *nodes] + ([peer] if peer is not None else [])
+    ticker = None
+    if stop is not None:
+        from happysimulator.core.entity import Entity
+
+        class _SampleTicker(Entity):
+            """Harness clock: one inert event per probe interval after the stop, so that the views are sampled
+            even if every probe loop in the cluster has gone silent."""
+
+            def handle_event(self, event):
+                return [Event(time=self.now + pi, event_type="SampleTick", target=self, daemon=True)]
+
+        ticker = _SampleTicker("sample-ticker")
+        entities.append(ticker)
     sim = Simulation(entities=entities, end_time=Instant.from_seconds(end_s), fault_schedule=fs)
+    if ticker is not None:
+        sim.schedule(Event(time=Instant.from_seconds(stop["at"]), event_type="SampleTick", target=ticker, daemon=True))
 
     # membership start: at offset 0 exactly like the repository's tests; later offsets through a one-shot event
     for nd, off in zip(nodes, case["offsets"]):
@@ -585,6 +729,14 @@ def _run_cluster(case: dict, *, check_false_death: bool, check_detection: bool) 
                 daemon=True,
             )
         )
+    for j, jn in enumerate((case.get("membership") or {}).get("joins", [])):
+        # late introductions: both sides call the public add_member() while the simulation runs
+        def introduce(e, pairs=jn["pairs"]):
+            for a, b in pairs:
+                nodes[a].add_member(nodes[b])
+                nodes[b].add_member(nodes[a])
+
+        sim.schedule(Event.once(time=Instant.from_seconds(jn["at"]), event_type=f"introduce{j}", fn=introduce, daemon=True))
     handles: dict = {}
     for i, p in enumerate(case.get("partitions", []) or []):
         ga = [nodes[j] for j in p["a"]]
@@ -637,21 +789,29 @@ def _run_cluster(case: dict, *, check_false_death: bool, check_detection: bool) 
     res.count("acks_received", sum(nd.stats.acks_received for nd in nodes))
     res.count("indirect_probes_sent", sum(nd.stats.indirect_probes_sent for nd in nodes))
     res.seen("cluster_sizes", n)
+    if case.get("membership") is not None:
+        res.count("idle_probe_ticks", sum(mon.idle_ticks))
+        res.count("late_introductions", sum(len(jn["pairs"]) for jn in case["membership"]["joins"]))
+        if sum(mon.idle_ticks) == 0 and not res.violations:
+            res.inconclusive = "no node ever had a probe round with nobody to probe"
     if mon.saw_suspect:
         res.count("runs_with_suspect")
     if mon.saw_dead:
         res.count("runs_with_dead")
     res.nontrivial = mon.saw_suspect
+    if case.get("bound_frac", BOUND_FRAC) > 0.25:
+        res.count("late_acks_seen", mon.late_acks)
+        res.nontrivial = mon.saw_suspect and mon.late_acks > 0
 
     # the "healthy" premise is measured, not assumed
     if case.get("bounded", True):
         delays = [d for (_, _, _, _, _, d) in script.log if d is not None]
         dropped = sum(1 for rec in script.log if rec[5] is None)
         res.count("messages_within_bound", len(delays))
-        lim = BOUND_FRAC * pi * (1 + 1e-9)
+        lim = case.get("bound_frac", BOUND_FRAC) * pi * (1 + 1e-9)
         if dropped or (delays and max(delays) > lim):
             raise RuntimeError(f"delay script broke the healthy-network premise: max={max(delays or [0])} lim={lim} dropped={dropped}")
-        if not delays:
+        if not delays and stop is None:
             res.inconclusive = "no message was sent"
     if status != "completed":
         if not res.violations:
@@ -677,8 +837,8 @@ def _detection_oracle(case, mon: _Monitor, nodes, res: Result, B: int, end_s: fl
         return
     worst = 0.0
     for yi, y in enumerate(nodes):
-        if yi == xi:
-            continue
+        if yi in mon.excluded or mon.cur[yi][xi] is None:
+            continue  # stopped itself, or never introduced to the stopped member
         res.count("observer_views_checked")
         la = mon.last_alive_ns[yi]
         if la is None:
@@ -722,7 +882,8 @@ def _detection_oracle(case, mon: _Monitor, nodes, res: Result, B: int, end_s: fl
                         "last_alive_report_intervals_after_stop": round(det, 2),
                         "bound_intervals": B,
                         "direct_probes_after_stop": probes,
-                        "final_views_of_stopped": {nd.name: nd.get_member_state(xname).name for i, nd in enumerate(nodes) if i != xi},
+                        "final_views_of_stopped": {nd.name: str(getattr(nd.get_member_state(xname), "name", None)) for i, nd in enumerate(nodes) if i != xi},
+                        "idle_probe_ticks_of_observer": mon.idle_ticks[yi],
                     },
                 )
             res.count("views_undetected_after_bound")
@@ -738,6 +899,14 @@ def run_healthy(case: dict) -> Result:
 
 
 def run_crash(case: dict) -> Result:
+    return _run_cluster(case, check_false_death=True, check_detection=True)
+
+
+def run_tardy(case: dict) -> Result:
+    return _run_cluster(case, check_false_death=True, check_detection=False)
+
+
+def run_join(case: dict) -> Result:
     return _run_cluster(case, check_false_death=True, check_detection=True)
 
 
@@ -892,10 +1061,12 @@ FAMILIES = {
     "crash": Family("crash", gen_crash, run_crash, case_timeout=60.0),
     "gossip": Family("gossip", gen_gossip, run_gossip, case_timeout=60.0),
     "churn": Family("churn", gen_churn, run_churn, case_timeout=60.0),
+    "tardy": Family("tardy", gen_tardy, run_tardy, case_timeout=60.0),
+    "join": Family("join", gen_join, run_join, case_timeout=60.0),
     "phi": Family("phi", gen_phi, run_phi, case_timeout=30.0),
 }
 
 BUDGET = {
-    "quick": {"healthy": 500, "crash": 500, "gossip": 300, "churn": 200, "phi": 1500},
-    "thorough": {"healthy": 12000, "crash": 12000, "gossip": 6000, "churn": 4000, "phi": 40000},
+    "quick": {"healthy": 500, "crash": 500, "gossip": 300, "churn": 200, "tardy": 300, "join": 300, "phi": 1500},
+    "thorough": {"healthy": 12000, "crash": 12000, "gossip": 6000, "churn": 4000, "tardy": 8000, "join": 8000, "phi": 40000},
 }
